@@ -16,27 +16,6 @@ Notation seq_operand := (seq_operand A zero ext).
 Notation run_method := (MiniGo.run_method A zero ext prog).
 
 (* ---------- array.GetValues(first, last): v[first : last+1] copied into a fresh array ---------- *)
-Lemma zsub_elems (l : list A) (lo hi : Z) : (0 <= lo <= hi)%Z -> (hi <= Z.of_nat (length l))%Z ->
-  zsub A (elems l) lo hi = Some (elems (firstn (Z.to_nat (hi - lo)) (skipn (Z.to_nat lo) l))).
-Proof.
-  intros H1 H2. unfold zsub. rewrite elems_length.
-  destruct (Z.ltb_spec lo 0); [lia|]. destruct (Z.ltb_spec hi lo); [lia|].
-  destruct (Z.ltb_spec (Z.of_nat (length l)) hi); [lia|]. cbn [orb].
-  rewrite elems_skipn, elems_firstn. reflexivity.
-Qed.
-
-Lemma zsub_none (l : list (val A)) (lo hi : Z) : (hi < lo \/ Z.of_nat (length l) < hi)%Z -> zsub A l lo hi = None.
-Proof.
-  intros H. unfold zsub. destruct (Z.ltb_spec lo 0); [reflexivity|]. destruct (Z.ltb_spec hi lo); [reflexivity|].
-  destruct (Z.ltb_spec (Z.of_nat (length l)) hi); [reflexivity|lia].
-Qed.
-
-Lemma zcopy_exact (z : val A) (src : list (val A)) : zcopy A (repeat z (length src)) src = src.
-Proof.
-  unfold zcopy. rewrite repeat_length, firstn_all.
-  rewrite skipn_all2 by (rewrite repeat_length; lia). apply app_nil_r.
-Qed.
-
 Lemma gen_array_GetValues l i j F : (Z.of_nat (length l) < two63)%Z -> 30 <= F ->
   call_at F (arr_val l) id_GetValues [VInt i; VInt j] =
   match get_values l i j with Ret r => ROk (arr_val r, arr_val l) | _ => RPanic (arr_val l) end.
@@ -59,16 +38,7 @@ Proof.
 Qed.
 
 (* ---------- array.SetValues(index, values): copy(v[first:last], values.AsArray()) ---------- *)
-Lemma zcopy_same (d s : list (val A)) : length d = length s -> zcopy A d s = s.
-Proof.
-  intros H. unfold zcopy. rewrite H, firstn_all. rewrite skipn_all2 by lia. apply app_nil_r.
-Qed.
 
-Lemma zsplice_elems (l : list A) (a b : nat) (seg : list A) :
-  zsplice A (elems l) (Z.of_nat a) (Z.of_nat b) (elems seg) = elems (firstn a l ++ seg ++ skipn b l).
-Proof.
-  unfold zsplice. rewrite !Nat2Z.id, elems_firstn, elems_skipn, !elems_app. reflexivity.
-Qed.
 
 Lemma gen_array_SetValues l i sv src F :
   seq_operand sv src -> (Z.of_nat (length l) < two63)%Z -> 90 <= F ->
@@ -91,7 +61,7 @@ Proof.
   set (sub := firstn (Z.to_nat (Z.of_nat (first + S (length src')) - Z.of_nat first)) (skipn (Z.to_nat (Z.of_nat first)) l)).
   assert (LS : length (elems sub) = length (elems (s0 :: src'))).
   { rewrite !elems_length. unfold sub. rewrite firstn_length, skipn_length. cbn [length]. lia. }
-  rewrite (zcopy_same _ _ LS). rewrite LS, Nat.eqb_refl. gorun.
+  rewrite (zcopy_same A _ _ LS). rewrite LS, Nat.eqb_refl. gorun.
   rewrite zsplice_elems. gorun.
   replace (S (first + S (length src') - 1) - first) with (S (length src')) by lia.
   replace (S (first + S (length src') - 1)) with (first + S (length src')) by lia.
